@@ -110,7 +110,12 @@ impl Fetcher {
     }
 
     /// Mark a fetch as failed for the [`NodeId`], using the provided `reason`.
+    ///
+    /// Results for the local node are ignored.
     pub fn fetch_failed(&mut self, node: NodeId, reason: impl ToString) {
+        if node == self.local_node {
+            return;
+        }
         let reason = reason.to_string();
         self.results.push(node, FetchResult::Failed { reason })
     }
@@ -128,6 +133,10 @@ impl Fetcher {
         node: NodeId,
         result: FetchResult,
     ) -> ControlFlow<Success, Progress> {
+        // N.b. results for the local node are ignored, and never count towards the target.
+        if node == self.local_node {
+            return ControlFlow::Continue(self.progress());
+        }
         self.results.push(node, result);
         self.finished()
     }
